@@ -907,13 +907,18 @@ class FoamFormatter(NativeFormatter):
 
         # Remove all dict entries starting with underscore
         def remove_underscore_keys_recursive(
-            arg: MutableMapping[K, V],
+            arg: MutableMapping[K, V] | MutableSequence[V],
         ) -> None:
+            if isinstance(arg, MutableSequence):
+                for item in arg:
+                    if isinstance(item, MutableMapping | MutableSequence):
+                        remove_underscore_keys_recursive(item)  # recursion
+                return
             keys = list(arg.keys())
             for key in keys:
                 if self.format_key(key).startswith("_"):
                     del arg[key]
-                elif isinstance(arg[key], MutableMapping):
+                elif isinstance(arg[key], MutableMapping | MutableSequence):
                     remove_underscore_keys_recursive(arg[key])  # recursion
             return
 
